@@ -118,8 +118,20 @@ PROPS["C11"] = dict(
                  check="acl_code", monitor="acl_code", count_quick=400, count_thorough=20000, nontrivial_bits=3, shrink=False),
             udp_suite("udp-swarm-acl", 0b01011, monitor="mon_c01", count_quick=240),
             http_suite("http-swarm-acl", 0b01011, monitor="mon_c07", count_quick=240),
-            ws_suite("ws-swarm-acl", count_quick=200)],
-    rule="access-list-files: sequences of 1..5 reloads through the real update_access_list (modes allow/deny/off) from generated files - "
+            ws_suite("ws-swarm-acl", count_quick=200),
+            dict(name="udp-gate", harness="udp-sys", imports=["UdpSysCheck"], case_type="sys_case",
+                 check="udp_sys_code", monitor="udp_sys_code", count_quick=12, count_thorough=120, nontrivial_any=True, shrink=False,
+                 extra={"backend": "mio"}, crash_is_violation=True),
+            dict(name="http-gate", harness="http-sys", imports=["HttpSysCheck"], case_type="hsys_case",
+                 check="http_sys_code", monitor="http_sys_mon", count_quick=16, count_thorough=400, nontrivial_any=True, shrink=False,
+                 crash_is_violation=True),
+            dict(name="ws-gate", harness="ws-sys", imports=["WsSysCheck"], case_type="wsys_case",
+                 check="ws_sys_code", monitor="ws_sys_mon", count_quick=16, count_thorough=300, nontrivial_any=True, shrink=False,
+                 crash_is_violation=True)],
+    rule="udp-gate / http-gate / ws-gate: the running-tracker suites of C06, C16 and C17 (half of their cases run with an allow or deny "
+         "list naming some of the torrents used): an announce for a forbidden torrent must be refused by the socket worker with the "
+         "protocol's error reply and leave no trace in any swarm worker, a permitted one must be handled as if no list existed; "
+         "access-list-files: sequences of 1..5 reloads through the real update_access_list (modes allow/deny/off) from generated files - "
          "empty, upper/lower/mixed-case hex, blank and white-space-only lines, leading/trailing blanks/tabs/VT/FF/CR, CRLF, missing final "
          "newline, a bad line (39/41/42 digits, non-hex, inner blank, non-ASCII, invalid UTF-8) at a random position, missing file, "
          "good-after-bad and bad-after-good - each followed by allows() queries for 4 hashes under all three modes; swarm suites: the "
